@@ -1101,6 +1101,8 @@ impl Matcher {
                     break;
                 }
                 Some(candidates) = self.changes_rx.recv() => {
+                    #[cfg(feature = "verif-hooks")]
+                    crate::verif::event("match.recv", || format!("subs {}", self.id));
                     for (table, pks) in  candidates {
                         let buffed = buf.entry(table).or_default();
                         for (pk, cl) in pks {
@@ -1114,6 +1116,10 @@ impl Matcher {
                         buf_count = 0;
                         Branch::NewCandidates(std::mem::take(&mut buf))
                     } else {
+                        #[cfg(feature = "verif-hooks")]
+                        if buf_count == 0 {
+                            crate::verif::event("match.idle", || format!("subs {}", self.id));
+                        }
                         continue;
                     }
                 },
@@ -1162,6 +1168,9 @@ impl Matcher {
                         debug!(sub_id = %self.id, "processed {buf_count} changes for subscription in {elapsed:?}");
                     }
                     buf_count = 0;
+
+                    #[cfg(feature = "verif-hooks")]
+                    crate::verif::event("match.idle", || format!("subs {}", self.id));
 
                     // reset the deadline
                     process_changes_deadline
